@@ -3,6 +3,10 @@ import json, os, sys
 HERE = os.path.dirname(os.path.dirname(os.path.abspath(__file__)))
 
 CHECKS = {
+    "C11": ("fault_enumeration", "3 C11",
+            "Patching histories (setup, boundary, fill, commit; IH5Record and IH5MFRecord) run in a writer process under strace; the syscall log is parsed into the ordered list of file mutations (self-validated by byte-identical replay). Every prefix of that list and every torn length of every data-carrying write is materialised as a crash image and judged: committed files byte-identical, committed set alone opens with the state at its commit, complete set refuses / is recognisably uncommitted / shows exactly the last or the new committed state.",
+            "Process death at syscall granularity (page-cache order); no block reordering (power loss) - outside the property's wording; quick tier tears HDF5 payload writes at a fixed stride, user-block and manifest writes at every byte.",
+            "exhaustive crash-point and torn-write enumeration over a recorded write history of the real code"),
     "C10": ("model_checking", "3 C10",
             "Every deduplicated IH5MFRecord state of the bounded tree exploration gets a stub from its newest manifest: skeleton equality (own scan), all-empty, merge refusal; every existence-based update history (1-2 ops of the alphabet) is applied once through the stub (patch then opened with the real files) and once directly, outcomes and views compared; after every commit the manifest bytes/uuid/skeleton are checked against the user block and the record; manifest_exts inheritance chain.",
             "Directly patched record is the reference; existence-based updates = set/create_group/delete/setattr/delattr/require_group; bounded depth/alphabet.",
